@@ -11,8 +11,8 @@ EXTENDS Integers, Sequences, TLC, Json, IOUtils, FiniteSets, SequencesExt
 Out  == IOEnv.VERIF_OUT
 Tier == IF "VERIF_TIER" \in DOMAIN IOEnv THEN IOEnv.VERIF_TIER ELSE "quick"
 Op(o, d, a, b, s, l) == [op |-> o, d |-> d, a |-> a, b |-> b, s |-> s, l |-> l]
-Scal == IF Tier = "quick" THEN {"1", "2", "r-1", "2^64", "lam", "rnd1"}
-        ELSE {"0", "1", "2", "3", "r-1", "r-2", "h", "2^64", "2^128", "2^252", "2^64-1", "2^63", "2^128-1", "2^192-1", "lam", "lam+1", "lam-1", "-lam", "rnd1", "rnd2"}
+Scal == IF Tier = "quick" THEN {"1", "2", "r-1", "2^64", "lam", "rnd1", "2^64+1", "3bits"}
+        ELSE {"0", "1", "2", "3", "r-1", "r-2", "h", "2^64", "2^128", "2^252", "2^64-1", "2^63", "2^128-1", "2^192-1", "lam", "lam+1", "lam-1", "-lam", "rnd1", "rnd2", "2^64+1", "2^128+1", "2^192+1", "2^69+2^5", "2^200+2^8", "3bits", "mont:1", "asmont:1"}
 ProgFrom(first, s) ==
   << first, Op("id", 2, 0, 0, "", <<>>),
      Op("smul", 3, 1, 0, s, <<>>), Op("double", 4, 1, 0, "", <<>>), Op("neg", 5, 1, 0, "", <<>>),
